@@ -366,6 +366,19 @@ def payload_streams(tier):
     fbig = f.but(slice_size_scaler=8)
     for c0 in range(0, len(chunk), 12):
         out.append(("hq-extreme-%d" % c0, fbig, chunk[c0 : c0 + 12]))
+    fld = T(profile=B.PROFILE_LD, major_version=1, frame_width=4, frame_height=2, slices_x=1, dwt_depth=1, wavelet_index=1, slice_bytes_numerator=700, slice_bytes_denominator=1)
+    nyl = B.slice_coeff_count(fld, "Y", 0, 0)
+    chunk = []
+    for k in (1, 31, 64, 127, 128, 255, 256, 257, 300, 1000):
+        for v in ((1 << k) - 1, 1 << k):
+            for sign in (1, -1):
+                y = [0] * nyl
+                y[k % nyl] = sign * v
+                c = [0] * (2 * nyl)
+                c[(k + 1) % (2 * nyl)] = -sign * v
+                chunk.append({"qindex": 0, "y_coeffs": y, "c_coeffs": c})
+    for c0 in range(0, len(chunk), 10):
+        out.append(("ld-extreme-%d" % c0, fld, chunk[c0 : c0 + 10]))
     # low delay: slice_bytes 1, 2 (and 3 in thorough): every slice_y_length, every payload
     for sb in ((1, 2) if quick else (1, 2, 3)):
         f = T(profile=B.PROFILE_LD, major_version=1, frame_width=2, frame_height=2, slices_x=1, dwt_depth=0, slice_bytes_numerator=sb, slice_bytes_denominator=1)
